@@ -397,7 +397,14 @@ func filterLatest(files []string, n int) []string {
 		return nil
 	}
 	sort.Slice(files, func(i, j int) bool {
-		return timestamp(files[i]) > timestamp(files[j])
+		ti, tj := timestamp(files[i]), timestamp(files[j])
+		if ti != tj {
+			return ti > tj
+		}
+		// Same start time: a run killed during compaction has left both its
+		// original and its compacted file. Prefer the one that lookup by
+		// request ID (and therefore a status update) uses.
+		return files[i] > files[j]
 	})
 	if n > len(files) {
 		n = len(files)
